@@ -101,9 +101,9 @@ def _worker(cond, budget, wfd, seed):
         data = pickle.dumps(res, protocol=4)
     except Exception:
         res['samples'] = [repr(s) for s in res.get('samples', [])]
-        if res.get('cex'):
-            res['cex']['unpicklable'] = True
-            res['cex']['args'] = repr(res['cex']['args'])
+        for cex in res.get('cexs', []):
+            cex['unpicklable'] = True
+            cex['args'] = repr(cex['args'])
         data = pickle.dumps(res, protocol=4)
     with os.fdopen(wfd, 'wb') as f:
         f.write(data)
@@ -211,6 +211,58 @@ def replay_subprocess(path, masks=True):
     return {'verdict': 'replay-error', 'detail': (proc.stdout + proc.stderr)[-2000:]}
 
 
+def replay_many(pid, cond_id, cexs):
+    """Replay candidates, each in its own forked process of one helper interpreter (no CrossHair
+    tracing, fresh process-global state per candidate).  Returns [(verdict, detail), ...]."""
+    os.makedirs(os.path.join(VERIF_ROOT, '.work'), exist_ok=True)
+    tmp = os.path.join(VERIF_ROOT, '.work', f'replay-{pid}-{os.getpid()}-{abs(hash(cond_id))}.pickle')
+    with open(tmp, 'wb') as f:
+        pickle.dump({'property': pid, 'condition': cond_id, 'args': [c['args'] for c in cexs]}, f, protocol=4)
+    env = dict(os.environ)
+    env['PYTHONPATH'] = os.path.join(VERIF_ROOT, 'lib')
+    env['PYTHONDONTWRITEBYTECODE'] = '1'
+    try:
+        proc = subprocess.run([sys.executable, '-m', 'verif.runner', '--replay-many', tmp],
+                              capture_output=True, text=True, env=env, timeout=1800)
+    finally:
+        pass
+    out = []
+    for line in proc.stdout.splitlines():
+        if line.startswith('REPLAY-VERDICT '):
+            out.append(json.loads(line[len('REPLAY-VERDICT '):]))
+    try:
+        os.remove(tmp)
+    except OSError:
+        pass
+    while len(out) < len(cexs):
+        out.append({'verdict': 'replay-error', 'detail': (proc.stdout + proc.stderr)[-1500:]})
+    return out
+
+
+def replay_many_raw(path):
+    with open(path, 'rb') as f:
+        doc = pickle.load(f)
+    load_property(doc['property'])
+    cond = h.REGISTRY[doc['condition']]
+    for args in doc['args']:
+        rfd, wfd = os.pipe()
+        pid = os.fork()
+        if pid == 0:
+            os.close(rfd)
+            try:
+                verdict, detail = run_native(cond, args)
+            except BaseException as exc:  # noqa
+                verdict, detail = 'replay-error', repr(exc)
+            with os.fdopen(wfd, 'w') as f:
+                f.write(json.dumps({'verdict': verdict, 'detail': detail}))
+            os._exit(0)
+        os.close(wfd)
+        with os.fdopen(rfd) as f:
+            data = f.read()
+        os.waitpid(pid, 0)
+        print('REPLAY-VERDICT ' + (data or json.dumps({'verdict': 'replay-error', 'detail': 'no output'})), flush=True)
+
+
 def replay_raw(path):
     with open(path) as f:
         doc = json.load(f)
@@ -279,23 +331,25 @@ def check(pid, tier, only=None, seed=0, jobs=JOBS):
     n_replay = 0
     for cid, res in sorted(results.items()):
         if res['status'] == 'REFUTED':
-            cex = res['cex']
-            if cex.get('unpicklable'):
-                spurious.append((cid, 'counterexample arguments not picklable'))
-                res['status'] = 'UNKNOWN'
-                res['reason'] = 'counterexample not replayable (unpicklable arguments)'
-                continue
-            n_replay += 1
-            path = write_replay(pid, cid, cex, tier, n_replay)
-            got = replay_subprocess(path)
-            res['replay'] = got
-            if got['verdict'] in ('ok', 'assumption-failed', 'replay-error'):
-                spurious.append((cid, f'counterexample {cex["args"]!r} ({cex["verdict"]}) replays as {got["verdict"]}'))
-                res['status'] = 'UNKNOWN'
-                res['reason'] = f'spurious counterexample (replays as {got["verdict"]}): {cex["args"]!r}'
-                os.remove(path)
+            reproduced = None
+            tried = []
+            cexs = [c for c in (res.get('cexs') or [res['cex']]) if not c.get('unpicklable')]
+            verdicts = replay_many(pid, cid, cexs) if cexs else []
+            for cex, got in zip(cexs, verdicts):
+                if got['verdict'] in ('ok', 'assumption-failed', 'replay-error'):
+                    tried.append(f'{cex["args"]!r} ({cex["verdict"]}) replays as {got["verdict"]}')
+                    continue
+                n_replay += 1
+                path = write_replay(pid, cid, cex, tier, n_replay)
+                reproduced = (cid, path, got, cex)
+                res['replay'] = got
+                break
+            if reproduced:
+                violations.append(reproduced)
             else:
-                violations.append((cid, path, got, cex))
+                spurious.append((cid, f'none of {len(cexs)} counterexample(s) reproduced natively: ' + '; '.join(tried)[:600]))
+                res['status'] = 'UNKNOWN'
+                res['reason'] = 'spurious counterexample(s): ' + '; '.join(tried)[:400]
         elif res['status'] in ('ERROR', 'VACUOUS'):
             errors.append((cid, res['status'], res.get('reason', '')))
         if res.get('native_mismatch'):
@@ -388,12 +442,16 @@ def main(argv=None):
     ap.add_argument('--only', action='append')
     ap.add_argument('--replay')
     ap.add_argument('--replay-raw')
+    ap.add_argument('--replay-many')
     ap.add_argument('--list', action='store_true')
     ap.add_argument('--jobs', type=int, default=JOBS)
     args = ap.parse_args(argv)
     seed = int(os.environ.get('VERIF_SEED', '0') or 0)
     if args.replay_raw:
         replay_raw(args.replay_raw)
+        return 0
+    if args.replay_many:
+        replay_many_raw(args.replay_many)
         return 0
     if args.replay:
         got = replay_subprocess(args.replay)
